@@ -229,8 +229,8 @@ func runC04(c *core.Ctx) {
 	giNamed := namedIn(c, "internal/wasm", "GlobalInstance")
 	if giNamed != nil {
 		allowed := map[string]string{
-			"internal/wasm": "accessor methods, instantiation-time constant-expression evaluators and global construction",
-			"internal/engine/wazevo": "the engine that owns compiled globals copies values in/out when it takes ownership",
+			"internal/wasm":               "accessor methods, instantiation-time constant-expression evaluators and global construction",
+			"internal/engine/wazevo":      "the engine that owns compiled globals copies values in/out when it takes ownership",
 			"internal/engine/interpreter": "the interpreter never hands globals to an engine-owned slot: Val is the live value",
 		}
 		readers := map[string]int{}
